@@ -41,7 +41,8 @@ AttrShapes(tier) ==
 (* method whose markers must stay on them *)
 ClassShapes(tier) ==
   { Shape("class", TRUE, f) : f \in { {}, {"pmiss"}, {"tuple"}, {"variadic"}, {"multi"}, {"multi", "pmiss"}, {"set", "setmulti"}, {"unknownvalue"},
-                                       {"tuple", "@tpbound"}, {"set", "@tpbound"} } }      \* "@tpbound": the construct sits in the bound of a type parameter
+                                       {"tuple", "@tpbound"}, {"set", "@tpbound"},
+                                       {"multi", "@privbase"}, {"multi", "@privfirst"} } }   \* a private base with an inherited public method, after / before the public bases      \* "@tpbound": the construct sits in the bound of a type parameter
   \cup { Shape("class", FALSE, {"pmiss", "multi"}) }
 
 Triples(S) == LET s == S IN { <<a, b, c>> : a \in s, b \in s, c \in s }
